@@ -324,9 +324,21 @@ def rule_nonetest(run):
     tab = load_table(prog, 'mulgrids', 'mulgrid_format_specification')
     for sec, kind, cls in PAIRS:
         nonetest_rule(run, prog.func(M + 'read_' + sec), [tab])
+    # attributes the module itself treats as "a number or None" (column surface, ...)
+    from .optnum import optnum_rule
+    optnum_rule(run, ['mulgrids'])
+
+
+def rule_pure(run):
+    run.rule('PURE', 'a write_* method does not modify the model: no store through an un-copied attribute dictionary '
+             '(x.__dict__ / vars(x)), no attribute assignment on an element of one of the model\'s lists', floor=1)
+    from .purewrite import pure_rule
+    cls = run.prog.cls('mulgrids', 'mulgrid')
+    pure_rule(run, [fi for name, fi in sorted(cls.methods.items()) if name.startswith('write')])
 
 
 def check(run):
+    run.guarded('PURE', rule_pure)
     run.guarded('DISP', rule_disp)
     run.guarded('RECSEQ', rule_recseq)
     run.guarded('FMAP', rule_fmap)
